@@ -345,7 +345,7 @@ pub fn run(args: &[String]) -> i32 {
     let tier = report::tier_from_env(args);
     let mut rep = Report::new("C02", &tier);
     controls(&mut rep);
-    let (maxv, keyn) = if rep.thorough() { (3, 7) } else { (2, 3) };
+    let (maxv, keyn) = if rep.thorough() { (3, 7) } else { (2, 4) };
     let (accs, stats) = explore(
         |ch| {
             gen(ch, maxv, keyn);
@@ -381,7 +381,7 @@ pub fn run(args: &[String]) -> i32 {
 
 pub fn replay(choices: &[u32], thorough: bool) -> i32 {
     let mut ch = Chooser::replay(choices);
-    let (maxv, keyn) = if thorough { (3, 6) } else { (2, 3) };
+    let (maxv, keyn) = if thorough { (3, 7) } else { (2, 4) };
     let c = gen(&mut ch, maxv, keyn);
     let mut acc = Acc::default();
     check_case(&c, choices, &mut acc);
